@@ -1053,4 +1053,33 @@ theorem control_reboot (s : St) (hinv : Inv s) (hctl : s.control = true) (hc : s
   refine ⟨⟨d, a, rfl⟩, ?_⟩
   simp [step, drain, loopOne, hp, hf, createConnection, setDisp]
 
+/-! ### the keep-alive's memory ends when the 'disconnected' announcement is delivered -/
+
+theorem createConnection_keepalive (s : St) :
+    (createConnection s).1.outstanding = s.outstanding ∧ (createConnection s).1.pingThread = s.pingThread ∧
+    (createConnection s).1.pendingDown = s.pendingDown := by
+  unfold createConnection; split <;> simp
+
+theorem loopOne_keepalive (s : St) (h : 0 < s.pendingDown) :
+    (loopOne s).1.outstanding = 0 ∧ (loopOne s).1.pingThread = false ∧ (loopOne s).1.pendingDown = s.pendingDown - 1 ∧
+    Out.downAll ∈ (loopOne s).2 := by
+  unfold loopOne
+  have hne : ¬ s.pendingDown = 0 := by omega
+  simp only [hne, if_false]
+  split <;> split <;> simp_all [createConnection_keepalive]
+
+theorem drain_keepalive (n : Nat) : ∀ (s : St), n ≤ s.pendingDown → 0 < n →
+    (drain s n).1.outstanding = 0 ∧ (drain s n).1.pingThread = false ∧ Out.downAll ∈ (drain s n).2 := by
+  induction n with
+  | zero => intro s _ h; omega
+  | succ k ih =>
+    intro s hle _
+    have h1 := loopOne_keepalive s (by omega)
+    unfold drain
+    by_cases hk : k = 0
+    · subst hk
+      simp [drain, h1.1, h1.2.1, h1.2.2.2]
+    · have := ih (loopOne s).1 (by rw [h1.2.2.1]; omega) (by omega)
+      simp [this.1, this.2.1, this.2.2]
+
 end Yow.Life
